@@ -259,32 +259,38 @@ def strDeclHolds (c : StrConv) (t : List Char) : Prop :=
 /-- the documented normalisation: whitespace is stripped from both ends unless `autostrip=False` -/
 def strNorm (c : StrConv) (s : List Char) : List Char := if c.autostrip then strip s else s
 
+theorem tooLong_false_iff (c : StrConv) (t : List Char) : tooLong c.maxLen t = false ↔ strDeclHolds c t := by
+  unfold strDeclHolds tooLong
+  cases c.maxLen with
+  | none => simp
+  | some m =>
+    by_cases h0 : m = 0
+    · simp [h0]
+    · simp [h0]
+
+theorem strValidate_str (c : StrConv) (s : List Char) :
+    strValidate c (.str s) = if tooLong c.maxLen (strNorm c s) then .error "ValueError" else .ok (.str (strNorm c s)) := rfl
+
 /-- **str attributes.** Accepted iff the value is a str whose normalised text is within the declared length;
     the accepted value is the normalised text. -/
 theorem C08_str (c : StrConv) (v : Val) :
     accepted (strValidate c v) ↔ ∃ s, v = .str s ∧ strDeclHolds c (strNorm c s) := by
-  unfold accepted strDeclHolds strNorm
-  cases v <;> simp [strValidate]
-  rename_i s
-  rcases hm : c.maxLen with _ | m
-  · simp
-  · by_cases h0 : m = 0
-    · simp [h0]
-    · simp [h0]
-      constructor
-      · intro h; split at h
-        · simp at h
-        · rename_i hh; simp at hh; omega
-      · intro h; rw [if_neg (by simp; omega)]; simp
+  cases v with
+  | str s =>
+    simp only [Val.str.injEq, exists_eq_left']
+    rw [strValidate_str, ← tooLong_false_iff]
+    unfold accepted
+    cases tooLong c.maxLen (strNorm c s) <;> simp
+  | _ => simp [strValidate, accepted]
 
 theorem C08_str_value (c : StrConv) (v r : Val) (h : strValidate c v = .ok r) :
     ∃ s, v = .str s ∧ r = .str (strNorm c s) := by
-  cases v <;> simp [strValidate] at h
-  rename_i s
-  refine ⟨s, rfl, ?_⟩
-  split at h
-  · cases h
-  · injection h with h; exact h.symm
+  cases v with
+  | str s =>
+    rw [strValidate_str] at h
+    cases ht : tooLong c.maxLen (strNorm c s) <;> simp [ht] at h
+    exact ⟨s, rfl, h.symm⟩
+  | _ => simp [strValidate] at h
 
 theorem dropWhile_eq_self_of_head {p : Char → Bool} : ∀ {l : List Char}, (∀ c, l.head? = some c → p c = false) → l.dropWhile p = l
   | [], _ => rfl
@@ -296,6 +302,16 @@ theorem head_dropWhile {p : Char → Bool} : ∀ (l : List Char) (c : Char), (l.
     by_cases ha : p a = true
     · simp [List.dropWhile, ha] at h; exact head_dropWhile l c h
     · simp [List.dropWhile, ha] at h; subst h; simpa using ha
+
+theorem mem_takeWhile_sat {p : Char → Bool} : ∀ (l : List Char) (c : Char), c ∈ l.takeWhile p → p c = true
+  | [], c, h => by simp at h
+  | a :: l, c, h => by
+    by_cases ha : p a = true
+    · simp [List.takeWhile, ha] at h
+      rcases h with rfl | h
+      · exact ha
+      · exact mem_takeWhile_sat l c h
+    · simp [List.takeWhile, ha] at h
 
 theorem rstrip_idem (s : List Char) : rstrip (rstrip s) = rstrip s := by
   unfold rstrip
@@ -332,8 +348,8 @@ theorem C08_strip_spec (s : List Char) :
   · unfold strip rstrip
     rw [List.append_assoc, ← List.reverse_append, List.takeWhile_append_dropWhile, List.reverse_reverse,
       List.takeWhile_append_dropWhile]
-  · intro c hc; exact (List.mem_takeWhile_imp hc)
-  · intro c hc; rw [List.mem_reverse] at hc; exact (List.mem_takeWhile_imp hc)
+  · intro c hc; exact mem_takeWhile_sat _ c hc
+  · intro c hc; rw [List.mem_reverse] at hc; exact mem_takeWhile_sat _ c hc
   · intro c hc; exact head_rstrip _ c (head_dropWhile _) hc
   · intro c hc
     unfold strip rstrip at hc
@@ -347,12 +363,9 @@ theorem C08_str_idem (c : StrConv) (v r : Val) (h : strValidate c v = .ok r) : s
     unfold strNorm; split
     · exact C08_strip_idem s
     · rfl
-  simp only [strValidate] at h ⊢
-  unfold strNorm at hn ⊢
+  rw [strValidate_str] at h ⊢
   rw [hn]
-  split at h
-  · cases h
-  · rename_i h2; rw [if_neg h2]
+  exact h
 
 /-! ### Attribute.validate / Required.validate -/
 
@@ -370,44 +383,47 @@ theorem attrValidate_proper (a : AttrOpts) (conv : Val → Res) (check : Val →
     attrValidate a conv check v = convChecked a conv check v := by
   cases v <;> simp_all [proper, attrValidate]
 
+theorem validate_proper (a : AttrOpts) (conv : Val → Res) (check : Val → Bool) (v : Val) (hv : proper v) :
+    validate a conv check v =
+      match conv v with
+      | .error e => .error e
+      | .ok r => if a.hasCheck && !check r then .error "ValueError"
+                 else if a.required && (r == .str [] || (r == .none && !a.noneOk)) then .error "ValueError" else .ok r := by
+  unfold validate requiredValidate
+  rw [attrValidate_proper a conv check v hv]
+  unfold convChecked
+  obtain ⟨req, nul, nok, d, hc⟩ := a
+  cases conv v with
+  | error e => cases req <;> rfl
+  | ok r =>
+    cases req <;> cases hc <;> cases hk : check r <;> simp [hk]
+
 /-- **values.** A proper candidate is accepted iff the converter accepts it, the custom check (if any) holds for the
     converted value, and — for a required attribute — the converted value is not the empty string.
     The accepted value is the converted value. -/
 theorem C08_attr_value (a : AttrOpts) (conv : Val → Res) (check : Val → Bool) (v r : Val) (hv : proper v) :
     validate a conv check v = .ok r ↔
       conv v = .ok r ∧ (a.hasCheck = true → check r = true) ∧ (a.required = true → r ≠ .str [] ∧ (r = .none → a.noneOk = true)) := by
-  unfold validate requiredValidate
-  rw [attrValidate_proper a conv check v hv]
-  unfold convChecked
+  rw [validate_proper a conv check v hv]
+  obtain ⟨req, nul, nok, d, hc⟩ := a
   cases hcv : conv v with
   | error e => simp
   | ok r' =>
-    by_cases hch : (a.hasCheck && !check r') = true
-    · simp only [hch, if_true]
-      have : ¬ (a.hasCheck = true → check r' = true) := by simp_all
-      constructor
-      · intro h; split at h <;> simp at h
-      · rintro ⟨h1, h2, _⟩; injection h1 with h1; subst h1; exact absurd h2 this
-    · simp only [hch]
-      have hch' : a.hasCheck = true → check r' = true := by simp_all
-      cases hreq : a.required
-      · simp
-        intro h; subst h; exact hch'
-      · simp
-        constructor
-        · intro h
-          split at h
-          · cases h
-          · rename_i hh
-            injection h with h; subst h
-            refine ⟨rfl, hch', ?_, ?_⟩
-            · intro he; apply hh; simp [he]
-            · intro he; subst he; simp at hh; cases hn : a.noneOk <;> simp_all
-        · rintro ⟨h1, _, h3, h4⟩
-          subst h1
-          have : (r' == Val.str [] || r' == Val.none && !a.noneOk) = false := by
-            cases hr : r' <;> simp_all
-          simp [this]
+    simp only [Except.ok.injEq]
+    constructor
+    · intro h
+      cases hc <;> cases hk : check r' <;> cases req <;> simp [hk] at h <;> (try (subst h; simp [hk]))
+      all_goals (
+        by_cases h1 : r' = Val.str []
+        · simp [h1] at h
+        · by_cases h2 : r' = Val.none ∧ nok = false
+          · simp [h2] at h
+          · simp [h1, h2] at h
+            subst h
+            refine ⟨rfl, by simp [hk], fun _ => ⟨h1, ?_⟩⟩
+            intro hn; cases nok <;> simp_all)
+    · rintro ⟨rfl, hk, hr⟩
+      cases hc <;> cases req <;> simp_all
 
 /-- **idempotence.** Validation of an accepted value returns it unchanged, whenever the converter is idempotent and
     never returns `None`/DEFAULT (true of every converter above), and the py_check is a function of the value. -/
@@ -431,7 +447,7 @@ theorem C08_attr_default (a : AttrOpts) (conv : Val → Res) (check : Val → Bo
                      | .ok r => if r == .str [] || (r == .none && !a.noneOk) then .error "ValueError" else .ok r)
                   else convChecked a conv check w := by
   obtain ⟨req, nul, nok, d, hc⟩ := a
-  cases d <;> cases req <;> cases nok <;> simp [validate, requiredValidate, attrValidate]
+  cases d <;> cases req <;> cases nok <;> simp [validate, requiredValidate, attrValidate] <;> rfl
 
 /-- **the same holds at every entry point**: creation, assignment, `set()` and lookups by attribute value accept exactly
     the same values and hold / search for exactly the same normalised value -/
@@ -466,16 +482,16 @@ theorem C08_int_attribute (u64 : Bool) (o : IntOpts) (c : IntConv) (parse : List
     exact ⟨.int i, (C08_attr_value a _ check (.int i) (.int i) ⟨by simp, by simp⟩).mpr ⟨hr, hk, by intro _; simp⟩⟩
 
 /-! ### non-vacuity: concrete declarations and values -/
-example : intInit false { size := some 8, min := some 0 } = .ok { minVal := some 0, maxVal := some 127, size := some 8, unsigned := some false } := by decide
-example : intValidate (fun _ => none) { minVal := some 0, maxVal := some 127, size := some 8, unsigned := some false } (.int (-5)) = .error "ValueError" := by decide
+example : intInit false { size := some 8, min := some 0 } = .ok { minVal := some 0, maxVal := some 127, size := some 8, unsigned := some false } := by rfl
+example : intValidate (fun _ => none) { minVal := some 0, maxVal := some 127, size := some 8, unsigned := some false } (.int (-5)) = .error "ValueError" := by rfl
 example : intDeclHolds { size := some 8, min := some 0 } 127 := by
   refine ⟨?_, ?_, ?_⟩ <;> simp [inRange, effBits]
 example : ¬ intDeclHolds { size := some 8, min := some 0 } (-5) := by
   intro h; have := h.2.1 0 rfl; omega
-example : intInit false { size := some 8, unsigned := some true, max := some 256 } = .error "ValueError" := by decide
-example : strValidate { maxLen := some 3, autostrip := true } (.str " abc\n".toList) = .ok (.str "abc".toList) := by decide
-example : strValidate { maxLen := some 3, autostrip := false } (.str " abc".toList) = .error "ValueError" := by decide
+example : intInit false { size := some 8, unsigned := some true, max := some 256 } = .error "ValueError" := by rfl
+example : strValidate { maxLen := some 3, autostrip := true } (.str [' ', 'a', 'b', 'c', '\n']) = .ok (.str ['a', 'b', 'c']) := by rfl
+example : strValidate { maxLen := some 3, autostrip := false } (.str [' ', 'a', 'b', 'c']) = .error "ValueError" := by rfl
 example : validate { required := true, nullable := false, noneOk := false, default := none, hasCheck := false }
-    (strValidate { maxLen := none, autostrip := true }) (fun _ => true) (.str "  ".toList) = .error "ValueError" := by decide
+    (strValidate { maxLen := none, autostrip := true }) (fun _ => true) (.str [' ', ' ']) = .error "ValueError" := by rfl
 
 end PonyVerif.Props.C08
